@@ -188,14 +188,10 @@ func Intersection(limit int, sets ...*Set) (*Set, bool) {
 		}
 		return intersection, limitReached
 	default:
-		left, stop := Intersection(limit, sets[0:len(sets)/2]...)
-		if stop { // Check if limit is reached by left, if it is, return left
-			return left, stop
-		}
-		right, stop := Intersection(limit, sets[len(sets)/2:]...)
-		if stop { // Check if limit is reached by right, if it is, return right
-			return right, stop
-		}
+		// The limit only bounds the final result: a half that reaches it on its own says nothing about
+		// the members common to all sets, so both halves are intersected in full.
+		left, _ := Intersection(0, sets[0:len(sets)/2]...)
+		right, _ := Intersection(0, sets[len(sets)/2:]...)
 		return Intersection(limit, left, right)
 	}
 }
